@@ -312,6 +312,8 @@ func run(r *mon.Run) {
 	r.Rule("bundles b1/b2 x 1..6 exchanges on up to 3 hosts (+ an uncovered host) x sequences of 1..3 signers (P-256/P-384, chains of 1-2 certificates, SANs covering disjoint host subsets) x MI record sizes {1,16,17,4096,16384} x lifetimes {1 s, 1 h, 1 d, 7 d}; checked in memory and after WriteTo/Read; authority index resolved by the harness; time grid around date / expires incl. sub-second instants and lifetime 604800 / 604801; mutations: every bit of the signatures section (small bundles), status / every header (incl. Digest re-encoded together with the body) / body bytes at every record boundary of covered exchanges, signed subsets swapped between signers, authority index +-1 / out of range, sig truncated / extended; crypto/ecdsa over the independently rebuilt message referees every vouched subset NewVerifier accepts; distinct = (version, class, mutation kind, outcome)")
 	r.Assume("ECDSA/SHA-256 is not forged by a random edit; signers cover disjoint host sets (a second AddPayloadIntegrity on the same exchange is refused by design); certificates are not validated by this library")
 	ids := map[string]*gen.Identity{}
+	var prevSc *scenario
+	var prevMid time.Time
 	n := 200
 	if r.Thorough {
 		n = 1200
@@ -325,6 +327,14 @@ func run(r *mon.Run) {
 			continue
 		}
 		g := r.Rand("mut", i)
+		// the signed bundle of the previous iteration was kept while this one was built, MI-encoded and signed:
+		// it must still verify, in memory and as read from its file
+		if prevSc != nil {
+			verifyAll(r, prevSc, prevSc.b, prevMid, "honest", "retained-in-memory", true, 0)
+			if rb := reread(r, prevSc, prevSc.file, "honest", "retained-file"); rb != nil {
+				verifyAll(r, prevSc, rb, prevMid, "honest", "retained-file", true, 0)
+			}
+		}
 		// window in which every signer's signature is valid
 		lo, hi := sc.signers[0].date, sc.signers[0].date.Add(sc.signers[0].duration)
 		for _, sp := range sc.signers {
@@ -339,6 +349,7 @@ func run(r *mon.Run) {
 			continue // (1-second lifetimes of staggered signers do not overlap)
 		}
 		mid := lo.Add(hi.Sub(lo) / 2)
+		prevSc, prevMid = sc, mid
 		// (a)-(d) honest, in memory and after a round trip
 		for _, t := range []time.Time{lo, mid, hi} {
 			verifyAll(r, sc, sc.b, t, "honest", "in-memory", true, 97)
